@@ -49,8 +49,68 @@ for _rel, _text in FILES2.items():
     os.makedirs(os.path.dirname(_p), exist_ok=True)
     with open(_p, "w") as _f:
         _f.write(_text.format(o=OUTER2))
+# third tree: the top-level __init__ re-exports one symbol from a leaf module and one THROUGH a sub-package's __init__ (both end up in the generated top-level __init__)
+OUTER3 = "fxr%d" % os.getpid()
+PKG3 = OUTER3 + ".lib"
+_CLS = "class {n}(object):\n    \"\"\"\n    A {n}.\n\n    :cvar v: the v\n    \"\"\"\n\n    v: int = 1\n\n\n__all__ = ['{n}']\n"
+FILES3 = {
+    "__init__.py": "",
+    "lib/__init__.py": "from {o}.lib.alpha import Alpha\nfrom {o}.lib.sub import Gamma\n\n__all__ = ['Alpha', 'Gamma']\n",
+    "lib/alpha.py": _CLS.replace("{n}", "Alpha"),
+    "lib/sub/__init__.py": "from {o}.lib.sub.gamma import Gamma\n\n__all__ = ['Gamma']\n",
+    "lib/sub/gamma.py": _CLS.replace("{n}", "Gamma"),
+}
+for _rel, _text in FILES3.items():
+    _p = os.path.join(_SRC, OUTER3, _rel)
+    os.makedirs(os.path.dirname(_p), exist_ok=True)
+    with open(_p, "w") as _f:
+        _f.write(_text.replace("{o}", OUTER3))
+# fourth tree: the same layout as the third, but the exposed module is a TOP-LEVEL (single-segment) package
+PKG4 = "fxs%d" % os.getpid()
+for _rel, _text in FILES3.items():
+    if not _rel.startswith("lib/"):
+        continue
+    _p = os.path.join(_SRC, PKG4, _rel[4:])
+    os.makedirs(os.path.dirname(_p), exist_ok=True)
+    with open(_p, "w") as _f:
+        _f.write(_text.replace("{o}.lib", PKG4))
 sys.path.insert(0, _SRC)
 _COUNTER = [0]
+
+
+def unbound_all(root):
+    """generated .py files under `root` whose __all__ names something the file neither defines nor imports (or that are not valid Python)"""
+    import ast as _ast
+
+    bad = []
+    for dp, _dn, fns in os.walk(root):
+        for fn in sorted(fns):
+            if not fn.endswith(".py"):
+                continue
+            path = os.path.join(dp, fn)
+            with open(path, "rt") as f:
+                text = f.read()
+            try:
+                mod = _ast.parse(text)
+            except SyntaxError as e:
+                bad.append("%s is not valid Python: %s" % (os.path.relpath(path, root), e))
+                continue
+            bound, alls = set(), []
+            for n in mod.body:
+                if isinstance(n, (_ast.ClassDef, _ast.FunctionDef, _ast.AsyncFunctionDef)):
+                    bound.add(n.name)
+                elif isinstance(n, (_ast.Import, _ast.ImportFrom)):
+                    bound.update((a.asname or a.name).split(".")[0] for a in n.names)
+                elif isinstance(n, (_ast.Assign, _ast.AnnAssign)):
+                    for t in (n.targets if isinstance(n, _ast.Assign) else [n.target]):
+                        if isinstance(t, _ast.Name):
+                            if t.id == "__all__" and isinstance(n.value, (_ast.List, _ast.Tuple)):
+                                alls = [e.value for e in n.value.elts if isinstance(e, _ast.Constant)]
+                            bound.add(t.id)
+            missing = [a for a in alls if a not in bound]
+            if missing:
+                bad.append("%s: __all__ names %r which the file neither defines nor imports" % (os.path.relpath(path, root), missing))
+    return bad
 EMITS = ("class", "function", "argparse", "sqlalchemy", "sqlalchemy_table", "json_schema", "pydantic")
 
 
@@ -116,7 +176,7 @@ class FsMonitor:
         return False
 
 
-def run_exmod(emit, dry_run, recursive, no_word_wrap, blacklist_sub, sql_sub, preexisting, bl_root=False, wl=0, tree=0, installed=False, named=False):
+def run_exmod(emit, dry_run, recursive, no_word_wrap, blacklist_sub, sql_sub, preexisting, bl_root=False, wl=0, tree=0, installed=False, named=False, mock=True):
     import contextlib
     import io
 
@@ -125,7 +185,7 @@ def run_exmod(emit, dry_run, recursive, no_word_wrap, blacklist_sub, sql_sub, pr
 
     _COUNTER[0] += 1  # not tempfile.mkdtemp: its random names are modelled as nondeterminism by the engine and fork paths
     out = os.path.join(_ROOT, "work_%d" % _COUNTER[0], "gold" if named else "out") if tree else os.path.join(_ROOT, "out_%d" % _COUNTER[0])  # named: the output directory IS the target module ('gold')
-    PKG = PKG2 if tree else globals()["PKG"]
+    PKG = PKG4 if tree == 3 else (PKG3 if tree == 2 else (PKG2 if tree else globals()["PKG"]))
     if tree:
         os.makedirs(os.path.dirname(out))
     if preexisting:
@@ -144,15 +204,18 @@ def run_exmod(emit, dry_run, recursive, no_word_wrap, blacklist_sub, sql_sub, pr
             try:
                 ex.exmod(emit_name=emit, module=PKG, blacklist=(["sub"] if blacklist_sub else []) + ([PKG] if bl_root else []),
                          whitelist=([PKG] if wl == 1 else (["other.mod"] if wl == 2 else [])), output_directory=out,
-                         target_module_name="gold", mock_imports=True, emit_sqlalchemy_submodule=sql_sub, extra_modules=None,
+                         target_module_name="gold", mock_imports=mock, emit_sqlalchemy_submodule=sql_sub, extra_modules=None,
                          no_word_wrap=True if no_word_wrap else None, recursive=recursive, dry_run=dry_run)
                 err = None
             except Exception as e:  # the property is about what is touched, also when the command fails
                 err = e
         log = list(mon.log)
+        generated_bad = unbound_all(out) if (not dry_run and err is None and os.path.isdir(out)) else []
     finally:
         exu.EXMOD_OUT_STREAM = saved_stream
         shutil.rmtree(os.path.dirname(out) if tree else out, ignore_errors=True)
+    if generated_bad:
+        return "generated file: " + generated_bad[0]
     if dry_run:
         if log:
             return "dry run reached a file-system mutator: %s %s" % (log[0][0], log[0][1].replace(out_real, "<out>"))
@@ -280,3 +343,20 @@ for _e in ("class", "function", "sqlalchemy"):
        bound="second fixture package: the exposed sub-module <pkg>.api re-exports through __all__ a class defined in the sibling module <pkg>.util and one of its own; emit kind %s; "
              "dry run or real, recursive, package installed under the interpreter's lib directory or not, output directory named like the target module ('gold') or not, pre-existing or not "
              "(all solver booleans): a dry run reaches no mutator, a real run touches only paths under the output directory" % _e)(_mk2(_e))
+
+
+# P5: every generated file is valid Python whose __all__ names symbols it defines or imports (third and fourth trees: re-export through a sub-package's __init__) -------
+def _mk5(emit):
+    def body(tree, recursive, installed, named, mock):
+        return run_exmod(emit, 0, recursive, 0, False, False, 0, tree=tree, installed=installed, named=named, mock=mock)
+
+    body.__name__ = "exmod_allbound_" + emit
+    return body
+
+
+for _e in EMITS:
+    ob("C20", "P5.all_bound.%s" % _e, {"tree": R(0, 3), "recursive": BOOL, "installed": BOOL, "named": BOOL, "mock": BOOL}, enum=True, tier="quick" if _e in ("class", "function", "sqlalchemy") else "thorough",
+       T=1500, tpath=300, funcs=FUNCS + ["cdd.compound.exmod_utils._emit_symbol", "cdd.shared.ast_utils.merge_modules"],
+       bound="REAL run, emit kind %s, on each of the four fixture trees (two-segment and single-segment exposed modules; re-export from a leaf module, from outside the module, and THROUGH a "
+             "sub-package's __init__), recursive, installed, output directory named like the target, mock_imports (solver booleans): every generated .py file parses and its __all__ names only "
+             "symbols the file defines or imports; paths under the output directory only" % _e)(_mk5(_e))
